@@ -33,6 +33,7 @@ type thread struct {
 	scriptIdx    int
 	scriptOff    int
 	lastCodeSep  int
+	codeSepSeen  bool // distinguishes a separator at offset 0 from no separator
 
 	tx         *bt.Tx
 	inputIdx   int
@@ -427,6 +428,7 @@ func (t *thread) Step() (bool, error) {
 				t.scriptIdx++
 			}
 			t.lastCodeSep = 0
+			t.codeSepSeen = false
 			return t.scriptIdx >= len(t.scripts), nil
 		}
 		return true, err
@@ -491,6 +493,7 @@ func (t *thread) Step() (bool, error) {
 	}
 
 	t.lastCodeSep = 0
+	t.codeSepSeen = false
 	if t.scriptIdx >= len(t.scripts) {
 		return true, nil
 	}
@@ -513,7 +516,7 @@ func (t *thread) SetStack(data [][]byte) {
 // subScript returns the script since the last OP_CODESEPARATOR.
 func (t *thread) subScript() ParsedScript {
 	skip := 0
-	if t.lastCodeSep > 0 {
+	if t.lastCodeSep > 0 || t.codeSepSeen {
 		skip = t.lastCodeSep + 1 // +1 to skip the opcode separator itself
 	}
 	return t.scripts[t.scriptIdx][skip:]
